@@ -44,6 +44,8 @@ pub struct Alphabet {
     /// deletions may leave live references (C09)
     pub dangling: bool,
     pub export_delete: bool,
+    /// C30: random types, limits and bit patterns (NaN payloads, v128, ref.null) in additions
+    pub rich: bool,
 }
 
 pub fn dt(v: VT) -> DataType {
@@ -165,6 +167,10 @@ pub struct World {
     pub declared: BTreeSet<u32>,
     /// functions named by `ref.func` in added or injected code
     pub needs_declared: BTreeSet<u32>,
+    /// function slots whose name is not constrained by any property (converted functions)
+    pub name_dontcare: BTreeSet<u32>,
+    /// a function import was added, converted or deleted since parsing
+    pub imports_changed: bool,
     pub counter: i64,
     pub log: Vec<String>,
     pub types: Vec<crate::gen::GType>,
@@ -204,6 +210,8 @@ impl World {
             inj: BTreeMap::new(),
             declared: BTreeSet::new(),
             needs_declared: BTreeSet::new(),
+            name_dontcare: BTreeSet::new(),
+            imports_changed: false,
             counter: 0,
             log: vec![],
             types: m.types.clone(),
@@ -258,7 +266,7 @@ impl World {
         if self.needs_declared.is_empty() {
             return false;
         }
-        let mut probe = World { f: vec![], g: vec![], m: vec![], imports: vec![], model: self.model.clone(), inj: BTreeMap::new(), declared: BTreeSet::new(), needs_declared: BTreeSet::new(), counter: 0, log: vec![], types: vec![], type_dbg: vec![] };
+        let mut probe = World { f: vec![], g: vec![], m: vec![], imports: vec![], model: self.model.clone(), inj: BTreeMap::new(), declared: BTreeSet::new(), needs_declared: BTreeSet::new(), name_dontcare: BTreeSet::new(), imports_changed: false, counter: 0, log: vec![], types: vec![], type_dbg: vec![] };
         if let Some(g) = del_global {
             probe.model.deleted_g.insert(g);
         }
@@ -719,6 +727,8 @@ pub struct Applied {
     /// trigger classes (hypothesised root causes) that apply to this history: a failing case
     /// that is inside such a class is reported under the class, not under its symptom
     pub trigger: Vec<&'static str>,
+    pub nan_consts: usize,
+    pub nonint_consts: usize,
 }
 
 impl EditDriver {
@@ -777,7 +787,7 @@ impl Driver for EditDriver {
         ]
     }
     fn run(&self, c: &mut Case) -> Outcome {
-        let mut ap = Applied { shifted_f: false, shifted_g: false, shifted_m: false, kinds: vec![], deletions: 0, conv_order: vec![], mixed_conv_import: false, trigger: vec![] };
+        let mut ap = Applied { shifted_f: false, shifted_g: false, shifted_m: false, kinds: vec![], deletions: 0, conv_order: vec![], mixed_conv_import: false, trigger: vec![], nan_consts: 0, nonint_consts: 0 };
         let o = self.run_inner(c, &mut ap);
         by_class(&ap, o)
     }
@@ -812,8 +822,14 @@ impl EditDriver {
         };
         let mut w = World::new(&gm, &din);
         let n_ops = c.t.range(1, self.max_ops);
+        let steer_locals = self.compare_names && c.avoid("local_names_under_function_shift") && !w.model.names.locals.is_empty();
+        let steer_globals = self.compare_names && c.avoid("global_names_under_global_shift") && !w.model.names.globals.is_empty();
         for _ in 0..n_ops {
-            match self.one_op(c, &mut module, &mut w, ap) {
+            // with the stale-name-map findings listed, the main domain keeps histories that do
+            // not shift an index space whose names are stored positionally
+            let before = (ap.shifted_f, ap.shifted_g);
+            let _ = before;
+            match self.one_op_steered(c, &mut module, &mut w, ap, steer_locals, steer_globals) {
                 Ok(()) => {}
                 Err(o) => {
                     c.note(|| format!("BASE\n{}\nHISTORY\n{}", dm::print_wat(&bytes), w.log.join("\n")));
@@ -826,6 +842,17 @@ impl EditDriver {
             c.class(&format!("op:{}", k));
         }
 
+        // trigger classes of the stored (never re-indexed) name maps
+        if self.compare_names {
+            let del_f = !w.model.deleted_f.is_empty();
+            let del_g = !w.model.deleted_g.is_empty();
+            if (ap.shifted_f || del_f) && !din.names.locals.is_empty() {
+                ap.trigger.push("local_names_under_function_shift");
+            }
+            if (ap.shifted_g || del_g) && !din.names.globals.is_empty() {
+                ap.trigger.push("global_names_under_global_shift");
+            }
+        }
         // expectation
         let expected = w.materialise();
         let eids = dm::Ids::edit(&expected);
@@ -882,8 +909,11 @@ impl EditDriver {
         let fb = dm::flatten(&dout, &oids, &opts);
         let mut diffs = dm::all_diffs(&fa, &fb, 40);
         if self.only_names {
-            diffs.retain(|(k, _, _)| k.starts_with("name."));
+            diffs.retain(|(k, _, _)| k.starts_with("name.func[") || k.starts_with("name.local[") || k.starts_with("name.global["));
         }
+        // names of converted functions are not constrained
+        let dontcare: Vec<String> = w.name_dontcare.iter().map(|f| format!("name.func[{}]", eids.fid(*f))).collect();
+        diffs.retain(|(k, _, _)| !dontcare.contains(k));
         if !diffs.is_empty() {
             c.note(|| format!("OUTPUT\n{}", dm::print_wat(&out)));
             let fails: Vec<Fail> = diffs
@@ -969,11 +999,26 @@ impl EditDriver {
         v
     }
 
+    fn one_op_steered<'a>(&self, c: &mut Case, module: &mut wirm::Module<'a>, w: &mut World, ap: &mut Applied, steer_locals: bool, steer_globals: bool) -> Result<(), Outcome> {
+        self.one_op(c, module, w, ap, steer_locals, steer_globals)
+    }
+
     /// apply one generated operation to the library and to the model
-    fn one_op<'a>(&self, c: &mut Case, module: &mut wirm::Module<'a>, w: &mut World, ap: &mut Applied) -> Result<(), Outcome> {
+    fn one_op<'a>(&self, c: &mut Case, module: &mut wirm::Module<'a>, w: &mut World, ap: &mut Applied, steer_locals: bool, steer_globals: bool) -> Result<(), Outcome> {
         let a = self.alphabet;
         let ops = self.enabled();
-        let op = *c.t.pick(&ops);
+        let mut op = *c.t.pick(&ops);
+        // ops that shift the function / global index space (conservatively)
+        let shifts_f = matches!(op, "add_import_func" | "delete_func" | "local_to_import" | "import_to_local");
+        let shifts_g = matches!(op, "add_imported_global" | "delete_global");
+        if steer_locals && shifts_f {
+            c.steered("local_names_under_function_shift");
+            op = "add_export_func";
+        }
+        if steer_globals && shifts_g {
+            c.steered("global_names_under_global_shift");
+            op = "add_global";
+        }
         let k = w.fresh();
         match op {
             "add_import_func" => {
@@ -995,6 +1040,7 @@ impl EditDriver {
                     return Err(fail("returned-id-not-fresh:imports-id", format!("add_import_func returned ImportsID {} with {} imports present", *r.1, w.imports.len())));
                 }
                 w.imports.push(ImpRef::F(id));
+                w.imports_changed = true;
                 w.f.push(FSlot { params, results, ty_idx: ty, import: true, deleted: false, nops: 0, added: true, was_import: false });
                 w.model.funcs.push(dm::DFunc { import: Some((mo, na)), ty_idx: ty, ..Default::default() });
                 if had_locals {
@@ -1035,15 +1081,23 @@ impl EditDriver {
                 let pd: Vec<DataType> = params.iter().map(|v| dt(*v)).collect();
                 let rd: Vec<DataType> = results.iter().map(|v| dt(*v)).collect();
                 let body2 = body.clone();
+                let bname = if a.naming && c.t.bool() { Some(format!("built{}", k)) } else { None };
+                let bname2 = bname.clone();
                 let r = run_lib(|| {
                     let mut b = FunctionBuilder::new(&pd, &rd);
                     for o in body2 {
                         b.inject(o);
                     }
+                    if let Some(n) = bname2 {
+                        b.set_name(n);
+                    }
                     b.finish_module(module)
                 })
                 .map_err(|p| lib_reject("finish_module", &p))?;
                 let id = *r;
+                if let Some(n) = &bname {
+                    w.model.names.funcs.insert(id, n.clone());
+                }
                 w.log.push(format!("FunctionBuilder({:?}->{:?}) body {:?} finish_module -> FunctionID {}", params, results, dbg_ops(&body), id));
                 if id as usize != w.f.len() {
                     return Err(fail("returned-id-not-fresh:func-local", format!("finish_module returned FunctionID {} but IDs 0..{} are taken", id, w.f.len())));
@@ -1067,6 +1121,9 @@ impl EditDriver {
                 run_lib(|| module.delete_func(FunctionID(id))).map_err(|p| lib_reject("delete_func", &p))?;
                 w.log.push(format!("delete_func({}){}", id, if rf.contains(&id) { "  [still referenced]" } else { "" }));
                 w.f[id as usize].deleted = true;
+                if w.f[id as usize].import {
+                    w.imports_changed = true;
+                }
                 w.model.deleted_f.insert(id);
                 // later slots shift
                 if live.iter().any(|x| *x > id) {
@@ -1111,6 +1168,7 @@ impl EditDriver {
                     return Err(fail("l2i-refused", "convert_local_fn_to_import returned false for a local function"));
                 }
                 w.imports.push(ImpRef::F(id));
+                w.imports_changed = true;
                 w.f[id as usize].import = true;
                 let d = &mut w.model.funcs[id as usize];
                 d.import = Some((mo, na));
@@ -1120,6 +1178,8 @@ impl EditDriver {
                 // names of the locals of a removed body are not expected to survive
                 w.model.names.locals.retain(|(f, _), _| *f != id);
                 w.model.names.labels.retain(|(f, _), _| *f != id);
+                w.model.names.funcs.remove(&id);
+                w.name_dontcare.insert(id);
                 ap.shifted_f = true;
                 if ap.kinds.contains(&"add_import_func") {
                     ap.mixed_conv_import = true;
@@ -1184,9 +1244,9 @@ impl EditDriver {
                 let imp_name = d.import.as_ref().map(|x| x.1.clone());
                 d.import = None;
                 d.ops = ops;
-                if let Some(n) = imp_name {
-                    w.model.names.funcs.insert(fid, n);
-                }
+                let _ = imp_name;
+                w.model.names.funcs.remove(&fid);
+                w.name_dontcare.insert(fid);
                 ap.shifted_f = true;
                 ap.kinds.push("import_to_local");
             }
@@ -1258,6 +1318,84 @@ impl EditDriver {
                 .map_err(|p| lib_reject("inject", &p))?;
                 w.inj.entry((fid, at)).or_default().extend(dbg_ops(&ops));
                 ap.kinds.push("inject");
+            }
+            "add_global" | "mod_global_init" if a.rich && (op == "add_global" || c.t.bool()) => {
+                // C30: bit-exact constants of every value type
+                use wasm_encoder::Instruction as WI;
+                let target: Option<u32> = if op == "mod_global_init" {
+                    let cand: Vec<u32> = w.live_g().into_iter().filter(|g| !w.g[*g as usize].import && matches!(w.g[*g as usize].ty, VT::I32 | VT::I64 | VT::F32 | VT::F64 | VT::V128)).collect();
+                    if cand.is_empty() {
+                        return Ok(());
+                    }
+                    Some(*c.t.pick(&cand))
+                } else {
+                    None
+                };
+                let ty = match target {
+                    Some(g) => w.g[g as usize].ty,
+                    None => *c.t.pick(&[VT::I32, VT::I64, VT::F32, VT::F64, VT::V128, VT::Func, VT::Extern]),
+                };
+                let mutable = c.t.bool();
+                let (instr, wi): (InitInstr, WI<'static>) = match ty {
+                    VT::I32 => {
+                        let v = c.t.i32v();
+                        (InitInstr::Value(Value::I32(v)), WI::I32Const(v))
+                    }
+                    VT::I64 => {
+                        let v = c.t.i64v();
+                        (InitInstr::Value(Value::I64(v)), WI::I64Const(v))
+                    }
+                    VT::F32 => {
+                        let b = c.t.f32bits();
+                        if f32::from_bits(b).is_nan() {
+                            ap.nan_consts += 1;
+                        }
+                        (InitInstr::Value(Value::F32(f32::from_bits(b))), WI::F32Const(crate::gen::ieee32(b)))
+                    }
+                    VT::F64 => {
+                        let b = c.t.f64bits();
+                        if f64::from_bits(b).is_nan() {
+                            ap.nan_consts += 1;
+                        }
+                        (InitInstr::Value(Value::F64(f64::from_bits(b))), WI::F64Const(crate::gen::ieee64(b)))
+                    }
+                    VT::V128 => {
+                        let v = c.t.u128();
+                        (InitInstr::Value(Value::V128(v)), WI::V128Const(v as i128))
+                    }
+                    other => {
+                        let rt = match wasmparser_valtype(other) {
+                            wasmparser::ValType::Ref(r) => r,
+                            _ => unreachable!(),
+                        };
+                        (InitInstr::RefNull(rt), WI::RefNull(other.heap().unwrap()))
+                    }
+                };
+                ap.nonint_consts += !matches!(ty, VT::I32 | VT::I64) as usize;
+                let init_dbg = dm::dbg_of_we(&[wi]);
+                let tydbg = global_ty_dbg(ty, if target.is_some() { w.g[target.unwrap() as usize].mutable } else { mutable });
+                if w.model.globals.iter().enumerate().any(|(i, g)| !w.model.deleted_g.contains(&(i as u32)) && g.import.is_none() && g.ty == tydbg && g.init == init_dbg) {
+                    return Ok(()); // identities must stay unique
+                }
+                let ie = InitExpr::new(vec![instr]);
+                match target {
+                    Some(g) => {
+                        run_lib(|| module.mod_global_init_expr(GlobalID(g), ie.clone())).map_err(|p| lib_reject("mod_global_init_expr", &p))?;
+                        w.log.push(format!("mod_global_init_expr({}, {:?})", g, init_dbg));
+                        w.model.globals[g as usize].init = init_dbg;
+                        ap.kinds.push("mod_global_init");
+                    }
+                    None => {
+                        let id = *run_lib(|| module.add_global(ie.clone(), dt(ty), mutable, false)).map_err(|p| lib_reject("add_global", &p))?;
+                        w.log.push(format!("add_global({:?} mut={} init {:?}) -> GlobalID {}", ty, mutable, init_dbg, id));
+                        if id as usize != w.g.len() {
+                            return Err(fail("returned-id-not-fresh:add_global", format!("add_global returned GlobalID {} but IDs 0..{} are taken", id, w.g.len())));
+                        }
+                        w.g.push(GSlot { ty, mutable, import: false, deleted: false });
+                        w.model.globals.push(dm::DGlobal { import: None, ty: tydbg, init: init_dbg });
+                        ap.kinds.push("add_global");
+                    }
+                }
             }
             "add_global" | "iter_add_global" => {
                 let ty = *c.t.pick(&[VT::I32, VT::I64, VT::F32, VT::F64, VT::Func]);
@@ -1374,9 +1512,9 @@ impl EditDriver {
             }
             "add_local_memory" | "add_import_memory" => {
                 let min = 50 + k as u64;
-                let is64 = false;
-                let shared = false;
-                let max = if c.t.bool() { Some(min + 5) } else { None };
+                let is64 = a.rich && c.t.chance(1, 3);
+                let shared = a.rich && c.t.chance(1, 3);
+                let max = if shared || c.t.bool() { Some(min + c.t.below(if a.rich { 60000 } else { 6 }) as u64) } else { None };
                 let mt = mem_ty(min, max, is64, shared);
                 let had_locals = w.m.iter().any(|m| !m.import && !m.deleted);
                 if op == "add_local_memory" {
@@ -1425,7 +1563,7 @@ impl EditDriver {
             }
             "add_data" => {
                 let live = w.live_m();
-                let n = c.t.below(5);
+                let n = c.t.below(if a.rich { 40 } else { 5 });
                 let bytes = c.t.bytes(n);
                 let passive = live.is_empty() || (w.model.data_count.is_some() && c.t.chance(1, 4));
                 if passive && w.model.data_count.is_none() {
@@ -1492,8 +1630,24 @@ impl EditDriver {
                     c.steered("set_fn_name_on_added");
                     return Ok(());
                 }
-                w.log.push(format!("set_fn_name({}, {:?})", id, name));
-                run_lib(|| module.set_fn_name(FunctionID(id), name.clone())).map_err(|p| lib_reject("set_fn_name", &p))?;
+                let imp_pos = w.imports.iter().position(|r| matches!(r, ImpRef::F(f) if *f == id));
+                match (w.f[id as usize].import, imp_pos, c.t.below(3)) {
+                    (true, Some(ii), 1) => {
+                        w.log.push(format!("imports.set_name({:?}, ImportsID {})  [function {}]", name, ii, id));
+                        run_lib(|| module.imports.set_name(name.clone(), ImportsID(ii as u32))).map_err(|p| lib_reject("imports.set_name", &p))?;
+                    }
+                    (true, Some(_), 2) if !w.f[id as usize].added && !(c.avoid("imports_set_fn_name_after_import_change") && w.imports_changed) => {
+                        if w.imports_changed {
+                            ap.trigger.push("imports_set_fn_name_after_import_change");
+                        }
+                        w.log.push(format!("imports.set_fn_name({:?}, FunctionID {})", name, id));
+                        run_lib(|| module.imports.set_fn_name(name.clone(), FunctionID(id))).map_err(|p| lib_reject("imports.set_fn_name", &p))?;
+                    }
+                    _ => {
+                        w.log.push(format!("set_fn_name({}, {:?})", id, name));
+                        run_lib(|| module.set_fn_name(FunctionID(id), name.clone())).map_err(|p| lib_reject("set_fn_name", &p))?;
+                    }
+                }
                 w.model.names.funcs.insert(id, name);
                 ap.kinds.push("set_fn_name");
             }
